@@ -422,7 +422,7 @@ class AbstractCircuit(abc.ABC):
             end_moment_index = len(self.moments)
 
         if max_distance is None:
-            max_distance = len(self.moments)
+            max_distance = max(end_moment_index, len(self.moments))
         elif max_distance < 0:
             raise ValueError(f'Negative max_distance: {max_distance}')
         else:
